@@ -290,6 +290,18 @@ def _own_breaks(loop: ast.AST) -> bool:
     return False
 
 
+def _own_continues(loop: ast.AST) -> bool:
+    todo = list(loop.body)
+    while todo:
+        n = todo.pop()
+        if isinstance(n, ast.Continue):
+            return True
+        if isinstance(n, (ast.While, ast.For, ast.FunctionDef, ast.AsyncFunctionDef, ast.ClassDef, ast.Lambda)):
+            continue
+        todo.extend(ast.iter_child_nodes(n))
+    return False
+
+
 def _returns_to_breaks(stmts: List[ast.stmt], tmp: str) -> List[ast.stmt]:
     """Inside the body of one loop (no nested loops with returns): `return E` -> `tmp = E; break`."""
     out: List[ast.stmt] = []
@@ -633,6 +645,38 @@ def inline_helpers(tree: ast.Module, known_funcs: Set[str], stats: dict) -> None
                         out.extend(splice(h, st.value, recv, host, "proc", f"_unused__{counter[0]}"))
                         stats.setdefault("inlined", []).append(f"{h.qual} (statement)")
                         changed = done = True
+                if not done and isinstance(st, ast.For) and not st.orelse and isinstance(st.iter, ast.Call):
+                    # 6. `for T in gen_helper(..): BODY` -> the helper's body with every `yield E` replaced by `T = E; BODY`
+                    h, recv = resolve(st.iter, encl_cls)
+                    if h is not None and h.is_gen and not _has(h.body, (ast.Return, ast.YieldFrom)) and not _own_breaks(st) and not _own_continues(st) \
+                            and all(isinstance(s2, ast.Expr) and isinstance(s2.value, ast.Yield) for s2 in ast.walk(ast.Module(body=h.body, type_ignores=[])) if isinstance(s2, ast.Expr) and _has(s2, ast.Yield)) \
+                            and not any(isinstance(n, ast.Yield) and not isinstance(n, ast.Expr) and False for n in []):
+                        ys_total = sum(1 for n in ast.walk(ast.Module(body=h.body, type_ignores=[])) if isinstance(n, ast.Yield))
+                        ys_stmt = sum(1 for n in ast.walk(ast.Module(body=h.body, type_ignores=[])) if isinstance(n, ast.Expr) and isinstance(n.value, ast.Yield))
+                        if ys_total == ys_stmt and ys_total >= 1:
+                            spliced = splice(h, st.iter, recv, host, "gen", None)
+                            target, body = st.target, st.body
+
+                            class _Y(ast.NodeTransformer):
+                                def visit_FunctionDef(self, node):
+                                    return node
+
+                                visit_AsyncFunctionDef = visit_Lambda = visit_ClassDef = visit_FunctionDef
+
+                                def visit_Expr(self, node):
+                                    if isinstance(node.value, ast.Yield):
+                                        val = node.value.value if node.value.value is not None else ast.Constant(value=None)
+                                        asg = ast.copy_location(ast.Assign(targets=[copy.deepcopy(target)], value=val), node)
+                                        return [asg] + copy.deepcopy(body)
+                                    return node
+
+                            new_stmts = []
+                            for s2 in spliced:
+                                r = _Y().visit(s2)
+                                new_stmts.extend(r if isinstance(r, list) else [r])
+                            out.extend(new_stmts)
+                            stats.setdefault("inlined", []).append(f"{h.qual} (for over generator)")
+                            changed = done = True
                 if not done and not isinstance(st, (ast.If, ast.While, ast.For, ast.With, ast.Try)):
                     # 4. a call nested in a simple statement's expression: hoist into a temporary
                     call = first_helper_call(st, encl_cls)
